@@ -321,3 +321,7 @@ func noDigits(s string) string {
 	}
 	return string(out)
 }
+
+type simhookGInfo = simhook.GInfo
+
+func stripLine(s string) string { return simhook.StripLine(s) }
